@@ -244,3 +244,48 @@ func clSkiplistNextAdvancesOnce(c *Ctx) {
 		undecidedf("skiplist.Iterator.Next: expected stores to it.curr")
 	}
 }
+
+// Every positioning method of the skiplist cursor re-validates it: Valid()
+// latches to false at the tail, so SeekFirst/Seek after reaching the end must
+// set the flag again (and a fresh cursor is not valid before it is positioned).
+func clCursorRevalidated(c *Ctx) {
+	p := c.P
+	fValid := p.Field("skiplist", "Iterator", "valid")
+	for _, name := range []string{"SeekFirst", "Seek"} {
+		fn := p.Func("skiplist", "Iterator", name)
+		fi := p.Info(fn)
+		ok := fi.PathAvoiding(nil, isReturn, func(x ssa.Instruction) bool {
+			st, isS := x.(*ssa.Store)
+			if !isS {
+				return false
+			}
+			f, _ := addrField(st.Addr)
+			b, isC := constBool(st.Val)
+			return f == fValid && isC && b
+		}) == nil
+		c.Check(ok, fn, nil, "positioning re-validates the cursor", "a cursor that reached the end stays invalid after it is repositioned: Valid() is false although it stands on an item, so scans after a rewind return nothing")
+	}
+	// Valid() turns false exactly at the tail sentinel
+	vf := p.Func("skiplist", "Iterator", "Valid")
+	vfi := p.Info(vf)
+	fCurr := p.Field("skiplist", "Iterator", "curr")
+	fTail := p.Field("skiplist", "Skiplist", "tail")
+	okTail := false
+	for _, st := range p.storesTo(vf, fValid) {
+		if b, isC := constBool(st.Val); isC && !b {
+			okTail = vfi.guardedByCmp(st, token.EQL, loadsField(fCurr), loadsField(fTail))
+		}
+	}
+	c.Check(okTail, vf, nil, "the cursor becomes invalid exactly when it stands on the tail sentinel", "")
+	// a fresh cursor is not valid
+	for _, ctor := range []string{"NewIterator2"} {
+		fn := p.Func("skiplist", "Skiplist", ctor)
+		bad := false
+		for _, st := range p.storesTo(fn, fValid) {
+			if b, isC := constBool(st.Val); isC && b {
+				bad = true
+			}
+		}
+		c.Check(!bad, fn, nil, "an unpositioned cursor is not valid", "")
+	}
+}
